@@ -78,6 +78,28 @@ type fakeHost struct {
 	failCloseTo map[peer.ID]bool
 	// scripted fault: every Write on a stream opened to one of these peers fails (connection dropped right after NewStream)
 	failWriteTo map[peer.ID]bool
+	// scripted schedule point: Close() of a stream opened to one of these peers announces itself on gate.in and
+	// waits for gate.out (so that the harness can run something else while a release is in the middle of closing)
+	gateCloseTo map[peer.ID]*closeGate
+	meet        int
+	meetCh      chan struct{}
+}
+
+func (h *fakeHost) setMeet(n int) {
+	h.mu.Lock()
+	h.meet, h.meetCh = n, nil
+	h.mu.Unlock()
+}
+
+type closeGate struct {
+	in  chan struct{}
+	out chan struct{}
+}
+
+func (h *fakeHost) setCloseGate(m map[peer.ID]*closeGate) {
+	h.mu.Lock()
+	h.gateCloseTo = m
+	h.mu.Unlock()
 }
 
 func (h *fakeHost) setFailWrite(m map[peer.ID]bool) {
@@ -136,11 +158,33 @@ func (h *fakeHost) SetStreamHandler(pid protocol.ID, f network.StreamHandler) {
 // NewStream opens a pipe to the destination host's registered stream handler; a peer without a host
 // (a relayer that is down) gets a stream whose writes are discarded.
 func (h *fakeHost) NewStream(ctx context.Context, p peer.ID, pids ...protocol.ID) (network.Stream, error) {
+	// scripted schedule point: the next `meet` callers leave NewStream together (all of them have missed in the
+	// stream manager by then)
+	h.mu.Lock()
+	var wait chan struct{}
+	if h.meet > 0 {
+		h.meet--
+		if h.meetCh == nil {
+			h.meetCh = make(chan struct{})
+		}
+		wait = h.meetCh
+		if h.meet == 0 {
+			close(h.meetCh)
+			h.meetCh = nil
+		}
+	}
+	h.mu.Unlock()
+	if wait != nil {
+		select {
+		case <-wait:
+		case <-time.After(2 * time.Second):
+		}
+	}
 	h.net.mu.Lock()
 	dst := h.net.hosts[p]
 	h.net.mu.Unlock()
 	h.mu.Lock()
-	s := &fakeStream{remote: p, failClose: h.failCloseTo[p], failWrite: h.failWriteTo[p]}
+	s := &fakeStream{remote: p, failClose: h.failCloseTo[p], failWrite: h.failWriteTo[p], closeGate: h.gateCloseTo[p]}
 	h.mu.Unlock()
 	if dst != nil {
 		dst.mu.Lock()
@@ -180,6 +224,7 @@ type fakeStream struct {
 	closed         int32
 	failClose      bool
 	failWrite      bool
+	closeGate      *closeGate
 	closeCalls     int32
 	deadWrites     int32
 }
@@ -204,6 +249,10 @@ func (s *fakeStream) Write(p []byte) (int, error) {
 	return s.w.Write(p)
 }
 func (s *fakeStream) Close() error {
+	if g := s.closeGate; g != nil && atomic.LoadInt32(&s.closeCalls) == 0 {
+		g.in <- struct{}{}
+		<-g.out
+	}
 	atomic.AddInt32(&s.closeCalls, 1)
 	atomic.StoreInt32(&s.closed, 1)
 	if s.w != nil {
